@@ -395,4 +395,110 @@ theorem logSum_spec (v : List XR) (hv : ∀ x ∈ v, x.isLogP) (hfin : finites v
 theorem logSum_of_max_pinf (v : List XR) (h : vmax v = some XR.pinf) : logSum v = some XR.pinf := by
   unfold logSum; rw [h]; rfl
 
+/-! ### LogNorm: exact normalisation (softmax) over the reals -/
+@[simp] theorem x_mul (a b : XR) : a * b = XR.mul a b := rfl
+@[simp] theorem x_div (a b : XR) : a / b = XR.div a b := rfl
+@[simp] theorem x_neg (a : XR) : VInf.neg a = XR.neg a := rfl
+
+theorem kahan_fold_fin (l : List ℝ) (s : ℝ) :
+    (l.map XR.fin).foldl kahanStep (XR.fin s, XR.fin 0) = (XR.fin (s + l.sum), XR.fin 0) := by
+  induction l generalizing s with
+  | nil => simp
+  | cons x xs ih =>
+    have h : kahanStep (XR.fin s, XR.fin 0) (XR.fin x) = (XR.fin (s + x), XR.fin 0) := by
+      simp only [kahanStep, x_sub, x_add, XR.sub, XR.neg, XR.add]
+      ext
+      · simp
+      · simp only [XR.fin.injEq]; ring
+    rw [List.map_cons, List.foldl_cons, h, ih, List.sum_cons]; simp only [Prod.mk.injEq, XR.fin.injEq, and_true]; ring
+
+theorem sum_fin (l : List ℝ) : sum (l.map XR.fin) = XR.fin l.sum := by
+  unfold sum
+  have := kahan_fold_fin l 0
+  simp only [x_ofNat, Nat.cast_zero] at *
+  rw [this]; simp
+
+theorem norm_fin (l : List ℝ) (h : l.sum ≠ 0) : norm (l.map XR.fin) = (l.map (· / l.sum)).map XR.fin := by
+  unfold norm
+  simp only [sum_fin, x_eq, x_ofNat, Nat.cast_zero]
+  have : XR.eq (XR.fin l.sum) (XR.fin 0) = false := by simp [XR.eq, h]
+  simp only [this, Bool.not_false, ↓reduceIte, List.map_map]
+  apply List.map_congr_left
+  intro a _
+  simp [XR.div, h]
+
+/-- probabilities `exp (x - r)` of log-probabilities (`-∞ ↦ 0`) -/
+noncomputable def expShift (r : ℝ) : XR → ℝ
+  | XR.fin a => Real.exp (a - r) | _ => 0
+
+/-- exact normalisation: `exp x_i / Σ_j exp x_j` (`-∞ ↦ 0`) -/
+noncomputable def softmax (v : List XR) : List ℝ :=
+  v.map fun x => match x with | XR.fin a => Real.exp a / ((finites v).map Real.exp).sum | _ => 0
+
+theorem expShift_sum (r : ℝ) (v : List XR) (hv : ∀ x ∈ v, x.isLogP) :
+    (v.map (expShift r)).sum = Real.exp (-r) * ((finites v).map Real.exp).sum := by
+  induction v with
+  | nil => simp [finites]
+  | cons x xs ih =>
+    have hxs : ∀ y ∈ xs, y.isLogP := fun y hy => hv y (List.mem_cons_of_mem _ hy)
+    cases x with
+    | fin a =>
+      simp only [List.map_cons, List.sum_cons, finites, ih hxs, expShift, mul_add]
+      congr 1; rw [← Real.exp_add]; congr 1; ring
+    | ninf => simp [finites, expShift, ih hxs]
+    | nan => exact absurd (hv _ List.mem_cons_self) (by simp [XR.isLogP])
+    | pinf => exact absurd (hv _ List.mem_cons_self) (by simp [XR.isLogP])
+
+theorem exp_increment (r : ℝ) (v : List XR) (hv : ∀ x ∈ v, x.isLogP) :
+    vexp (increment v (VInf.neg (VNum.ofNat 1) * XR.fin r)) = (v.map (expShift r)).map XR.fin := by
+  unfold vexp increment
+  rw [List.map_map, List.map_map]
+  apply List.map_congr_left
+  intro x hx
+  have hxr : (VInf.neg (VNum.ofNat 1 : XR) * XR.fin r) = XR.fin (-((1 : Nat) : ℝ) * r) := rfl
+  cases x with
+  | fin a =>
+    simp only [Function.comp, hxr, x_add, XR.add, x_exp, XR.exp, expShift, XR.fin.injEq]
+    congr 1; push_cast; ring
+  | ninf => simp only [Function.comp, hxr, x_add, XR.add, x_exp, XR.exp, expShift]
+  | nan => exact absurd (hv _ hx) (by simp [XR.isLogP])
+  | pinf => exact absurd (hv _ hx) (by simp [XR.isLogP])
+
+theorem finites_sum_pos (v : List XR) (h : finites v ≠ []) : 0 < ((finites v).map Real.exp).sum := by
+  cases hf : finites v with
+  | nil => exact absurd hf h
+  | cons a l =>
+    simp only [List.map_cons, List.sum_cons]
+    have : 0 ≤ (l.map Real.exp).sum := List.sum_nonneg (by
+      intro x hx; simp only [List.mem_map] at hx; obtain ⟨y, _, rfl⟩ := hx; exact le_of_lt (Real.exp_pos y))
+    linarith [Real.exp_pos a]
+
+/-- `LogNorm` returns exactly `exp x_i / Σ_j exp x_j` over the reals (independently of the rounding of the intermediate
+    log-sum), `-∞` entries give probability 0, and the result sums to 1 -/
+theorem logNorm_spec (v : List XR) (hv : ∀ x ∈ v, x.isLogP) (hfin : finites v ≠ []) :
+    logNorm v = some ((softmax v).map XR.fin) ∧ (softmax v).sum = 1 := by
+  obtain ⟨r, hr, _⟩ := logSum_spec v hv hfin
+  have hT := finites_sum_pos v hfin
+  have hS : (v.map (expShift r)).sum ≠ 0 := by
+    rw [expShift_sum r v hv]; exact ne_of_gt (mul_pos (Real.exp_pos _) hT)
+  have hsoft : softmax v = (v.map (expShift r)).map (· / (v.map (expShift r)).sum) := by
+    unfold softmax
+    rw [List.map_map]
+    apply List.map_congr_left
+    intro x _
+    rw [expShift_sum r v hv]
+    cases x with
+    | fin a =>
+      simp only [Function.comp, expShift]
+      rw [Real.exp_sub, Real.exp_neg]
+      field_simp
+    | ninf => simp [expShift]
+    | nan => simp [expShift]
+    | pinf => simp [expShift]
+  constructor
+  · unfold logNorm
+    rw [hr]
+    simp only [Option.map_some, exp_increment r v hv, norm_fin _ hS, hsoft]
+  · rw [hsoft, sum_map_div, div_self hS]
+
 end EaselModel.Vec
